@@ -1,5 +1,107 @@
-import TinsModel.Ack.Model
-import TinsModel.Ack.Spec
+import TinsModel.Ack.Refine
+import TinsModel.Ack.SpecLemmas
+/-
+  Property C19 — the ACK/SACK tracker agrees with a set-of-acknowledged-bytes model.
+
+  Histories are lists of `Spec.Pkt` over *absolute* positions (unbounded `Nat`, so they cross 2^32 freely); the
+  tracker model is fed their 32-bit images (`Ack.feed`: `wrap32` of the ACK, edge vector `edgesOf` of the blocks).
+  `conforming a0 [] h` is the hypothesis of the property (ACK never moves backwards, blocks strictly above it, a later
+  ACK never inside an earlier block — i.e. what a receiver emits, `SpecLemmas.cumAck_mono` /
+  `later_ack_not_in_block` — and everything the observer compares within half the sequence space).
+  Helper lemmas live in `TinsModel/Ack/{Lemmas,Refine,SpecLemmas}.lean`.
+-/
 namespace Tins.Props.C19
-theorem placeholder : True := trivial
+open Tins Tins.Ack Tins.Ack.Spec
+
+/-- the tracker `AckTracker(a0 mod 2^32, use_sack = true)` after it has processed the history `h` -/
+def trackerAfter (a0 : Nat) (h : List Pkt) : Tracker := run (Tracker.init (wrap32 a0) true) h
+
+/-- **State.** After every conforming history (any initial sequence number, any number of wraps of the sequence
+    space) `ack_number()` is the image of the cumulative ACK and `acked_intervals()` holds exactly the images of
+    the selectively acknowledged positions above it. -/
+theorem ack_refines (a0 : Nat) (h : List Pkt) (hc : conforming a0 [] h = true) :
+    (trackerAfter a0 h).ack = wrap32 (cumAck a0 h) ∧
+    ∀ x, ISet.mem (trackerAfter a0 h).ivs x = true ↔
+      ∃ p, wrap32 p = x ∧ cumAck a0 h < p ∧ sacked (allBlocks [] h) p = true := by
+  have hr := rep_run h (rep_init a0 true) rfl hc
+  exact ⟨hr.ack, hr.pts⟩
+
+/-- **Query.** `is_segment_acked(seq, len)` is true iff every byte of the segment lies below the cumulative ACK or
+    inside a SACKed block — for every segment inside the window `(A - 2^31, A + 2^31)`. -/
+theorem segment_acked_iff (a0 : Nat) (h : List Pkt) (hc : conforming a0 [] h = true) (s n : Nat)
+    (hd : queryInDomain (cumAck a0 h) s n = true) :
+    isSegmentAcked (trackerAfter a0 h) (wrap32 s) n = true ↔ SegAcked (cumAck a0 h) (allBlocks [] h) s n :=
+  isSegmentAcked_iff (rep_run h (rep_init a0 true) rfl hc) s n hd
+
+/-- The same invariant from any tracker state that represents some observer knowledge (so the two theorems above
+    also hold for a tracker that is queried and fed in any interleaving). -/
+theorem invariant_step (A : Nat) (seen : List Blk) (t : Tracker) (hr : Rep A seen t) (hs : t.useSack = true)
+    (k : Pkt) (hk : pktOK A seen k = true) :
+    Rep k.ack (seen ++ k.blocks) (feed t k) ∧ (feed t k).useSack = true :=
+  ⟨rep_feed hr hs k hk, by rw [feed_useSack, hs]⟩
+
+/-- **Unreachable branch.** For a block of a conforming packet the branch of `process_sack` that *moves the ACK
+    number* (`seq_compare(start, ack_number_) <= 0`) is never taken: the block is processed by insertions only. -/
+theorem sack_low_branch_unreachable (A : Nat) (t : Tracker) (hack : t.ack = wrap32 A) (l r : Nat)
+    (h1 : A < l) (h2 : l < r) (h3 : r ≤ A + half) :
+    sackBlock t (wrap32 l) (wrap32 r) =
+      { t with ivs := (Range.mk (wrap32 l) (wrap32 (r - 1))).intervals.foldl
+                        (fun s i => insertIvl s i.lo i.hi) t.ivs } :=
+  sackBlock_conforming hack l r h1 h2 h3
+
+/-- **Bounded loops.** Every loop over an `AckedRange` runs at most two iterations, whatever the 32-bit inputs
+    (regular range: one interval; wrapped range: the part up to 2^32-1 and the part from 0). -/
+theorem acked_range_two_iterations (n x y : Nat) (hx : x < 4294967296) (hy : y < 4294967296) :
+    Range.drain (n + 2) (Range.mk x y) = Range.drain 2 (Range.mk x y) ∧ (Range.drain 2 (Range.mk x y)).length ≤ 2 := by
+  refine ⟨drain_fuel n x y hx hy, ?_⟩
+  rw [drain_raw 0 x y hx hy]
+  split <;> split <;> simp
+
+/-- **Wrap-aware splitter.** `AckedRange(a mod 2^32, b mod 2^32)` covers exactly the images of the absolute
+    positions `a..b` (for `a ≤ b` less than 2^31 apart). -/
+theorem acked_range_points (a b x : Nat) (hab : a ≤ b) (hw : b < a + 2147483648) :
+    ISet.mem (Range.mk (wrap32 a) (wrap32 b)).intervals x = true ↔ ∃ p, a ≤ p ∧ p ≤ b ∧ wrap32 p = x :=
+  mem_intervals_abs a b x hab hw
+
+/-- **Interval-set parameter.** The three icl operations the tracker uses, as modelled, have point-set semantics. -/
+theorem interval_set_semantics (s : ISet) (lo hi p : Nat) :
+    (ISet.mem (insertIvl s lo hi) p = true ↔ (ISet.mem s p = true ∨ (lo ≤ p ∧ p ≤ hi))) ∧
+    (ISet.mem (eraseIvl s lo hi) p = true ↔ (ISet.mem s p = true ∧ ¬ (lo ≤ p ∧ p ≤ hi))) ∧
+    (lo ≤ hi → (containsIvl s lo hi = true ↔ ∀ q, lo ≤ q → q ≤ hi → ISet.mem s q = true)) :=
+  ⟨mem_insertIvl s lo hi p, mem_eraseIvl s lo hi p, containsIvl_iff s lo hi⟩
+
+/-- **Oracle.** The interval computation the run-time oracle uses is the byte-level definition. -/
+theorem oracle_is_definition (A : Nat) (seen : List Blk) (s n : Nat) :
+    segAckedFast A seen s n = true ↔ SegAcked A seen s n :=
+  segAckedFast_iff A seen s n
+
+/-- **Hypothesis is what receivers do.** A receiver whose set of held positions only grows emits cumulative ACKs that
+    never move backwards and never land inside a block it reported earlier. -/
+theorem receiver_histories_conform (a0 : Nat) (R R' : Nat → Prop) (A A' : Nat) (hsub : ∀ p, R p → R' p)
+    (h : IsCumAck a0 R A) (h' : IsCumAck a0 R' A') (seen : List Blk) (hseen : ∀ p, sacked seen p = true → R p) :
+    A ≤ A' ∧ sacked seen A' = false :=
+  ⟨cumAck_mono a0 R R' A A' hsub h h', later_ack_not_in_block a0 R R' A' hsub h' seen hseen⟩
+
+/-! ### non-vacuity: the hypotheses are satisfiable by non-trivial histories -/
+
+/-- a history that crosses 2^32: two blocks (one across the wrap point), an ACK landing just below a block, a lost
+    ACK, and the final ACK covering everything -/
+def sampleHistory : List Pkt :=
+  [⟨8589934582, [(8589934589, 8589934597)]⟩,
+   ⟨8589934585, [(8589934589, 8589934597), (8589934600, 8589934610)]⟩,
+   ⟨8589934597, [(8589934600, 8589934610)]⟩,
+   ⟨8589934610, []⟩]
+
+example : conforming 8589934582 [] sampleHistory = true := by decide
+example : conforming 8589934582 [] (sampleHistory.take 2) = true ∧
+    queryInDomain (cumAck 8589934582 (sampleHistory.take 2)) 8589934589 8 = true := by decide
+/-- the window hypothesis is tight but satisfiable at its edge: a block ending exactly at `A + 2^31` -/
+example : conforming 4294967290 [] [⟨4294967290, [(4294967291, 4294967290 + 2147483648)]⟩] = true := by decide
+
+/-- What the unreachable branch does on a *non-conforming* packet (a block starting at or below the tracker's ACK,
+    here the unit test `AckingTcp_SackOutOfOrder1`): the ACK number becomes the *last* byte of the block (11), not
+    the next expected position (12). Outside the property's hypothesis; compared model-vs-code only. -/
+example : pktOK 10 [] ⟨0, [(9, 12)]⟩ = false := by decide
+example : (feed (Tracker.init 10 true) ⟨0, [(9, 12)]⟩).ack = 11 := by decide
+
 end Tins.Props.C19
